@@ -8,11 +8,15 @@
                        col_rel_width to within one twip;
      C08_rounding      twip depends only on the VALUE of the rational, so equal widths (an inherited
                        header and the body it labels) get equal \cellx.
+     C08_rows_right_edge   every row table_encode renders from Utils._col_widths(rel, W) for rows with one value per
+                       relative width (data rows, header rows, the one-cell footnote / source table) ends at twip W:
+                       the statement about the RENDERED rows (ce_x of the last cell), not only about the width list;
+     C08_spanning_right_edge   every group-heading row ends at twip col_width.
    C08_partial (not proved): that the header's inherited widths ARE the sliced body widths — this is
    constructor logic (RTFDocument.__init__, after the repair), checked on the implementation by
    check_c08 clause 3; binary64 noise at exact ties is outside the model (flagged per case). *)
 From Coq Require Import List ZArith QArith Qabs Bool.
-From V Require Import Str Num Doc Encode WidthProofs.
+From V Require Import Str Num Items Doc Encode Pipeline WidthProofs RightEdgeProofs.
 Import ListNotations.
 Local Open Scope Q_scope.
 
@@ -30,6 +34,18 @@ Proof. exact twip_Qeq. Qed.
 
 Theorem C08_count : forall rel W, length (col_widths rel W) = length rel.
 Proof. exact col_widths_length. Qed.
+
+Theorem C08_rows_right_edge : forall ctx a crw W rows off its,
+  table_encode ctx a (col_widths crw W) rows off = Ok its ->
+  ~ qsum crw == 0 -> Forall (fun vals => vals <> [] /\ length vals = length crw) rows ->
+  Forall (fun i => match i with IRow r => row_end r = Some (twip W) | _ => True end) its.
+Proof. exact table_rows_right_edge. Qed.
+Print Assumptions C08_rows_right_edge.
+
+Theorem C08_spanning_right_edge : forall ctx s text col its,
+  spanning_row ctx s text col = Ok its ->
+  Forall (fun i => match i with IRow r => row_end r = Some (twip (p_col_width (s_page s))) | _ => True end) its.
+Proof. exact spanning_row_right_edge. Qed.
 
 (* three equal columns over 6.25 in: 3000, 6000, 9000 twips *)
 Example C08_example : map twip (col_widths [1#1; 1#1; 1#1] (625 # 100)) = [3000; 6000; 9000]%Z.
